@@ -570,6 +570,17 @@ func init() {
 		add := func(id, src, text string) {
 			cases = append(cases, Case{ID: id, Op: "json", Fields: []string{hx(src), hx(text)}, Meta: map[string]string{}})
 		}
+		// 0a. result lists that are the concatenation of several scans (several commands): offsets restart with each
+		// command, so the list is NOT ascending — first command matching deep in a longer text, last one at its top
+		for k, n := range []int{300, 1100, 5000, 70000} {
+			filler := strings.Repeat("lorem ipsum\n", n/12+1)
+			text := "TITLE q\"uote\n" + filler + "TODO \\ end"
+			for j, src := range []string{"find all 'TODO'\nfind all 'TITLE'", "replace all 'TODO' with 'DONE'\nfind all 'TITLE' (any = c)",
+				"find all 'TODO'\nfind all 'nothing'\nfind top 1 any", "find last 1 any\nfind top 1 any"} {
+				st.Features["multi-scan-descending-offsets"]++
+				add(fmt.Sprintf("ms%d.%d", k, j), src, text)
+			}
+		}
 		// 0. the same kind of programs with the text arriving through a file whose path is not in canonical form
 		forms := []string{"plain", "doubled", "dot", "dotdot", "dir", "dirslash", "dirdot"}
 		for i, p := range c17Programs {
